@@ -406,7 +406,8 @@ fn main()
 	let mut emit_c = |c: String, out: &mut Out| { if sh.mine() { let r = run_case(&c, &dir); out.line(&c, &r); } };
 	macro_rules! emit { ($b:expr, $o:expr) => { emit_c(format!("B {}", hex_bytes($b)), $o) } }
 	// binaries larger than any buffer size one might think of (64 KiB, the 264 KiB of RP2040 SRAM, 1 MiB)
-	for (n, kind) in [(0x8000usize, "run"), (0x21000, "run"), (0x21100, "call"), (0x80010, "run")] { if thorough || n < 0x80000 { emit_c(format!("G {:x} {}", n, kind), &mut out); } }
+	// (and a call across more than 4 MiB: BL reaches +-16 MiB)
+	for (n, kind) in [(0x8000usize, "run"), (0x21000, "run"), (0x21100, "call"), (0x80010, "run"), (0x200100, "call")] { if thorough || n < 0x80000 || kind == "call" { emit_c(format!("G {:x} {}", n, kind), &mut out); } }
 	// fixed corpus; the witness of the known finding F24 (addsub_imm3_alias) first
 	// (…, then instructions that are NOT terminal followed by code reachable only by fall-through: POP without PC,
 	// PUSH, a conditional branch, BLX, SVC, WFI; seeded change C20-3 needs the first one; before them two binaries whose function is placed BEFORE its only
